@@ -25,13 +25,16 @@ LEVEL_TEXT = ("Machine-checked proofs (Coq; reals axioms only) about a branch-by
 LEVEL_NOTE = ("Trusted: Coq kernel; translator for interp_previous/nearest/expdecay, recordsz_expr, _unwind_ptr; the hand-written "
               "model C04/Synapse.v (incl. a hand transcription of the tensor path of RecordTensor.select) validated by "
               "correspondence only; torch broadcasting/gather/where modelled by their meaning. Floating-point rounding is not "
-              "proved (theorems are exact-arithmetic statements). Known finding candidate: with maximum delay 0 (recordsz 1) a "
-              "selector carrying the trailing D axis makes _synparam_at raise / return the wrong shape.")
+              "proved (theorems are exact-arithmetic statements). Defect found by this check and since repaired in /repo (10db8c5): "
+              "with maximum delay 0 a selector carrying the trailing D axis made _synparam_at raise / mis-broadcast; the "
+              "witnesses stay in corpus/C04.")
 HEADER = ("From Coq Require Import List ZArith Bool PrimFloat.\n"
           "From Inferno Require Import Base.Num Base.NumF C01.Ring C04.Synapse C04.SynapseExec.\n"
           "Import ListNotations.\n")
 IMPL = os.path.join(F.VERIF, "tools", "impl", "c04_impl.py")
 CLSN = ["DeltaCurrent", "DeltaPlusCurrent", "SingleExponentialCurrent", "DoubleExponentialCurrent"]
+# label of oracle failures on an undelayed record queried with a selector that has the trailing D axis (repaired
+# upstream defect, /repo 10db8c5; witnesses are kept in corpus/C04 so that a regression is reported as a VIOLATION)
 FINDING_SIG = {"kind": "undelayed_selector_D_axis"}
 
 
@@ -140,20 +143,6 @@ def gen_cases(rng, n):
     return [gen_case(rng, i) for i in range(n)]
 
 
-# concrete witnesses of the undelayed / D-axis candidate finding (always run): raising, wrong shape, and silent
-# mis-broadcast (batch 1, N == D)
-WITNESSES = [
-    {"cls": 2, "shape": [3], "batch": 2, "dt": 1.0, "delay": 0.0, "Q": 2.0, "tau": 5.0, "tr": 1.0, "mode": 0, "tol": 0.25,
-     "cur_ob": 0.0, "spk_ob": False, "inplace": False, "float_in": False, "nonbinary": False, "dyadic": True, "malformed": False,
-     "ops": [["step", [2, 3], [1.0, 0.0, 1.0, 0.0, 1.0, 1.0], []],
-             ["cur_at", [2, 3, 2], [0.0, 0.5, 0.0, 0.0, 2.0, 0.0, 0.0, 0.0, 0.25, 0.25, 1.0, 0.0]],
-             ["spk_at", [2, 3, 2], [0.0, 0.5, 0.0, 0.0, 2.0, 0.0, 0.0, 0.0, 0.25, 0.25, 1.0, 0.0]]]},
-    {"cls": 0, "shape": [2], "batch": 1, "dt": 1.0, "delay": 0.0, "Q": 1.0, "tau": 5.0, "tr": 1.0, "mode": 0, "tol": 0.0,
-     "cur_ob": 7.5, "spk_ob": None, "inplace": True, "float_in": False, "nonbinary": False, "dyadic": True, "malformed": False,
-     "ops": [["step", [1, 2], [1.0, 0.0], []],
-             ["cur_at", [1, 2, 2], [0.0, 0.0, 0.0, 0.0]],
-             ["spk_at", [1, 2, 2], [0.0, 0.0, 0.0, 0.0]]]},
-]
 
 
 # ------------------------------------------------------------------ rendering to Coq
@@ -459,21 +448,13 @@ def judge(case, mtree, res):
     if "crash" in res:
         return [{"case": case, "detail": {"implementation_crashed": res["crash"]}}], []
     fails = oracle_case(case, res)
-    failing_steps = {f["step"] for f in fails}
     for f in fails:
         ofail.append({"case": case, "detail": {k: v for k, v in f.items() if k != "signature"}, "signature": f["signature"]})
     if isinstance(mtree, Exception):
         mism.append({"case": case, "detail": str(mtree)})
         return mism, ofail
-    full = [case["batch"]] + case["shape"]
     for i, d in compare(case, mtree, res["own"]):
-        op = case["ops"][i] if i >= 0 else None
-        # inside the predicate of the candidate finding (undelayed record, selector with the D axis) a case passes
-        # if the implementation matches the model OR satisfies the oracle (an upstream repair must not alarm)
-        if (op is not None and op[0] in ("cur_at", "spk_at", "pos_at", "neg_at") and mtree[0][0] == 1
-                and len(op[1]) == len(full) + 1 and i not in failing_steps):
-            continue
-        mism.append({"case": case, "detail": {"step": i, "op": op, "diff": d}})
+        mism.append({"case": case, "detail": {"step": i, "op": case["ops"][i] if i >= 0 else None, "diff": d}})
         break
     return mism, ofail
 
@@ -481,7 +462,8 @@ def judge(case, mtree, res):
 def run(ctx):
     rng = random.Random(ctx["seed"])
     n = 260 if ctx["tier"] == "quick" else 4000
-    cases = load_corpus() + [dict(w) for w in WITNESSES] + gen_cases(rng, n)
+    corpus = load_corpus()
+    cases = corpus + gen_cases(rng, n)
     impl = F.run_impl(IMPL, {"cases": cases})
     model = F.eval_terms(ID, HEADER, [q_case(c) for c in cases], shard=12 if ctx["tier"] == "quick" else 60)
     mismatches, oracle_fail = [], []
@@ -512,7 +494,7 @@ def run(ctx):
         "class_distribution": dict(Counter(CLSN[c["cls"]] for c in cases)),
         "undelayed_cases": sum(1 for c in cases if c["delay"] == 0),
         "selector_values_queried": nq,
-        "samples": cases[len(WITNESSES):len(WITNESSES) + 2],
+        "samples": cases[len(corpus):len(corpus) + 2],
         "mismatches": mismatches, "oracle_failures": oracle_fail,
         "traces_validated_against_impl": n_ok,
     }
